@@ -79,7 +79,8 @@ def gen_decl_scenario(seed, tier="quick", hostile=None, faults=()):
     for kind in faults:
         if rng.random() < 0.5:
             if kind == "client_death":
-                sc["faults"].append({"kind": kind, "plan": rng.randrange(nplans), "after_sends": rng.randint(1, 8)})
+                sc["faults"].append({"kind": kind, "plan": rng.randrange(nplans), "after_sends": rng.randint(1, 8),
+                                     "goodbye": derive_seed(seed, "goodbye") % 2 == 0})
             elif kind == "sql":
                 sc["faults"].append({"kind": kind, "nth_rpc_statement": rng.randint(1, 120)})
     return sc
@@ -111,6 +112,7 @@ class DeathInjector(M.Monitor):
             if f["kind"] == "client_death" and proc.label == f"./sp{f['plan']}.py" and not f.get("done"):
                 f["done"] = True
                 proc.die_after_sends = f["after_sends"]
+                proc.die_goodbye = bool(f.get("goodbye"))
 
 
 def run_decl(sc, own_classes, extra=None, second_build=True) -> Result:
